@@ -14,7 +14,7 @@ BLOCKING = ("std::sync::Mutex", "std::sync::RwLock", "std::sync::Condvar", "std:
 NO_UNWIND_KEYS = (
     "std::cell::UnsafeCell::get",            # pointer arithmetic only
     "std::option::Option::is_some", "std::option::Option::is_none",
-    "std::vec::Vec::len", "std::slice::len",
+    "std::vec::Vec::len", "std::slice::len", "std::vec::Vec::new",   # (Vec::new allocates nothing)
     "std::mem::drop",                          # judged by what it drops: only used on the panic guard here (checked)
     "std::iter::IntoIterator::into_iter",      # identity / Vec -> IntoIter: moves only
     "std::cmp::Ord::cmp", "std::cmp::PartialOrd::lt", "std::cmp::PartialEq::eq",
